@@ -109,6 +109,10 @@ def main():
                         tag = "starter=3"
                     elif cfg.get("scaler", 2) != 0 and cfg.get("persistentscaling", 1) != 0:
                         tag = "persistent-scaling"
+                    elif cfg.get("scaler", 2) != 0 and cfg.get("persistentscaling", 1) == 0:
+                        tag = "nonpersistent-scaling"
+                    elif cfg.get("pricer", 0) in (4, 5):
+                        tag = "steepest-edge"
                     else:
                         tag = "other"
                     ck.violation("resolve-after-clearBasis-differs:%s" % tag,
